@@ -15,7 +15,7 @@ PLAN = {
     'C03': ['kernel', 'should_build', 'stamp', 'unlocked', 'env_inherit', 'record'],
     'C05': ['sched', 'kernel', 'set_failed', 'should_build', 'record', 'job_completion', 'script_args'],
     'C12': ['sched', 'kernel', 'cycles', 'env_inherit'],
-    'C14': ['kernel', 'ifcreate_always', 'stamp'],
+    'C14': ['sched', 'kernel', 'ifcreate_always', 'stamp'],
     'C17': ['kernel', 'roles', 'ood'],
 }
 
